@@ -4,7 +4,7 @@
    (empty, overlapping or quote-like markers included). Termination of the model is by
    construction (structural recursion / fuel bounded by the input length). *)
 From Coq Require Import NArith List.
-From SG Require Import Counter.Lexer Counter.Sloc Counter.Proofs_C03 Counter.LexerIdx Counter.ProofsIdx.
+From SG Require Import Counter.Lexer Counter.Sloc Counter.Proofs_C03 Counter.LexerIdx Counter.ProofsIdx Counter.SlocIdx Counter.ProofsIdx2.
 Import ListNotations.
 Open Scope N_scope.
 
@@ -68,6 +68,20 @@ Proof.
   destruct (process_impl st c tl tr) as [st' k] eqn:E. exact (process_impl_consumed _ _ _ _ _ _ E).
 Qed.
 Print Assumptions C03_skipper_index_safe.
+
+(* the same for the two remaining char-vector loops of the line classifier (Counter/SlocIdx.v):
+   find_lua_long_bracket_outside_string with match_lua_long_bracket (chars[i], chars[i + 1], the run of
+   equals signs, chars[..i]) and count_markers_outside_string (raw-string skipping, chars[i..] twice,
+   i += marker length, i += consumed): Ok for every char vector and every pair of markers, equal to the
+   list-level model. With C03_scanner_index_safe this covers every indexing site of src/counter/comment.rs *)
+Theorem C03_lua_scanner_index_safe : forall cs : str, find_lua_idx cs = Ok (flua cs O None 0).
+Proof. exact find_lua_idx_ok. Qed.
+Print Assumptions C03_lua_scanner_index_safe.
+
+Theorem C03_marker_counter_index_safe : forall cs sm em : str,
+  count_markers_idx cs sm em = Ok (count_markers cs sm em).
+Proof. exact count_markers_idx_ok. Qed.
+Print Assumptions C03_marker_counter_index_safe.
 
 (* non-vacuity: a concrete source with a comment, a blank and an ignored line *)
 Example C03_nonvacuous :
